@@ -42,32 +42,52 @@ theorem chain_clauses {d : Disk} {c : List Block} (ci : ChainInv d c) :
     have := ci.linked.le_head x this.1
     omega
 
-/-- The store right after genesis creation satisfies the invariant. -/
-theorem inv_genesis (T : Nat → Option Block) (g : Block) (h0 : g.height = 0) (hT : T g.hash = some g) :
-    Inv T (genesisState g).disk (genesisState g).mem [g] := by
-  refine ⟨⟨h0, rfl, ?_, ?_, ?_, ?_, ?_, ?_, ?_, rfl, rfl⟩, rfl, ?_, ?_, ?_⟩
-  · intro x hx; simp at hx; subst hx; simp [genesisState]
-  · intro x hx; simp at hx; subst hx; simp [genesisState]
-  · intro h x hx
-    simp only [genesisState] at hx
-    rcases upd_eq_some hx with ⟨e, hv⟩ | ⟨_, hm⟩
-    · simp at hv; subst hv; exact ⟨List.mem_cons_self .., e.symm⟩
-    · cases hm
-  · intro n x hx
-    simp only [genesisState] at hx
-    rcases upd_eq_some hx with ⟨e, hv⟩ | ⟨_, hm⟩
-    · simp at hv; subst hv; exact ⟨List.mem_cons_self .., e.symm⟩
-    · cases hm
-  · intro x hx; simp at hx; subst hx; simp [genesisState]
-  · intro n hn
-    simp only [genesisState] at hn
-    rcases updB_eq_true hn with ⟨e, _⟩ | ⟨_, hm⟩
-    · exact ⟨g, List.mem_cons_self .., e.symm⟩
-    · cases hm
-  · intro x hx; simp at hx; subst hx; simp [genesisState]
+/-- The store right after genesis creation satisfies the invariant (the genesis block carries no transactions). -/
+theorem inv_genesis (T : Nat → Option Block) (g : Block) (h0 : g.height = 0) (htx : g.txs = [])
+    (hT : T g.hash = some g) : Inv T (genesisState g).disk (genesisState g).mem [g] := by
+  have ci : ChainInv (genesisState g).disk [g] := {
+    linked := h0
+    cur := rfl
+    blocks_mem := by intro x hx; simp at hx; subst hx; simp [genesisState]
+    heights_mem := by intro x hx; simp at hx; subst hx; simp [genesisState]
+    blocks_only := by
+      intro h x hx
+      simp only [genesisState] at hx
+      rcases upd_eq_some hx with ⟨e, hv⟩ | ⟨_, hm⟩
+      · simp at hv; subst hv; exact ⟨List.mem_cons_self .., e.symm⟩
+      · cases hm
+    heights_only := by
+      intro n x hx
+      simp only [genesisState] at hx
+      rcases upd_eq_some hx with ⟨e, hv⟩ | ⟨_, hm⟩
+      · simp at hv; subst hv; exact ⟨List.mem_cons_self .., e.symm⟩
+      · cases hm
+    verify_mem := by intro x hx; simp at hx; subst hx; simp [genesisState]
+    verify_only := by
+      intro n hn
+      simp only [genesisState] at hn
+      rcases updB_eq_true hn with ⟨e, _⟩ | ⟨_, hm⟩
+      · exact ⟨g, List.mem_cons_self .., e.symm⟩
+      · cases hm
+    roots := by intro x hx; simp at hx; subst hx; simp [genesisState]
+    noAdd := rfl
+    noRemove := rfl
+    exec_mem := by intro x hx t ht; simp at hx; subst hx; rw [htx] at ht; cases ht
+    exec_only := by intro t h hh; cases hh
+    txdisj := List.pairwise_singleton _ _ }
+  refine ⟨ci, rfl, ?_, ?_, ?_⟩
   · intro n z hz; cases hz
   · intro k f hf; cases hf
   · intro z hz; simp at hz; subst hz; exact hT
+
+/-- The pool clause, spelled out: at every state satisfying the invariant a transaction is marked executed
+    exactly when a block of the head's chain contains it, and it is marked with that block. -/
+theorem pool_exact {d : Disk} {c : List Block} (ci : ChainInv d c) (t h : Nat) :
+    d.executed t = some h ↔ ∃ x ∈ c, x.hash = h ∧ t ∈ x.txs := by
+  constructor
+  · exact ci.exec_only t h
+  · rintro ⟨x, hx, rfl, ht⟩
+    exact ci.exec_mem x hx t ht
 
 /-! ## absent crashes -/
 
@@ -120,6 +140,18 @@ theorem inv_crash {T : Nat → Option Block} (vt : ValidTree T) (fuel : Nat) (s 
   have h := restart_spec (T := T) (s := s'.arm none) rfl hr hT'
   have hsafe := safe_restart (s'.arm none) (arm_safe s')
   exact ⟨c', Out.of_alive h.1 hsafe.1, h.2 hsafe.1⟩
+
+/-- **inv_crash, pool clause.** After a death in front of ANY write of a delivery — including the tx pool's own
+    batch write and each of its deletes, in their real position between the intent marks — and a restart, a
+    transaction is marked executed exactly when a block of the recovered head's chain contains it. -/
+theorem inv_crash_pool {T : Nat → Option Block} (vt : ValidTree T) (fuel : Nat) (s : St) (b : Block) (c : List Block)
+    (inv : Inv T s.disk s.mem c) (hT : T b.hash = some b) (k : Nat) :
+    let s' := (addBlock fuel (s.arm (some k)) b).1
+    ∃ c', Inv T (restart (s'.arm none)).1.disk (restart (s'.arm none)).1.mem c' ∧
+      ∀ t h, (restart (s'.arm none)).1.disk.executed t = some h ↔ ∃ x ∈ c', x.hash = h ∧ t ∈ x.txs := by
+  intro s'
+  obtain ⟨c', inv', _⟩ := inv_crash vt fuel s b c inv hT k
+  exact ⟨c', inv', pool_exact inv'.chain⟩
 
 /-- **Deaths during the repair itself.** From any disk a crashed delivery can leave behind, any number
     of restarts that each die in front of an arbitrary write of the start-up repair, followed by one
@@ -185,13 +217,13 @@ theorem head_after_crash_remove {T : Nat → Option Block} (s : St) (x : Block) 
     of the add mark): the restarted node's chain is `c` (old head) or `b :: c` (new head). -/
 theorem head_after_crash_insert {T : Nat → Option Block} (s : St) (b y : Block) (c : List Block)
     (inv : Inv T s.disk s.mem c) (hp : b.pre = y.hash) (hy : c.head? = some y) (hh : y.height < b.height)
-    (hn : s.disk.blocks b.hash = none) (hT : T b.hash = some b) (k : Nat) :
+    (hn : s.disk.blocks b.hash = none) (hT : T b.hash = some b) (hfresh : ∀ z ∈ c, ∀ t ∈ b.txs, t ∉ z.txs) (k : Nat) :
     let s' := insertB (insertA (s.arm (some k)) b) b
     (Inv T (restart (s'.arm none)).1.disk (restart (s'.arm none)).1.mem c ∨
      Inv T (restart (s'.arm none)).1.disk (restart (s'.arm none)).1.mem (b :: c)) ∧
     (restart (s'.arm none)).2 = .ok := by
   intro s'
-  have hq := insertAB_spec (T := T) (s := s.arm (some k)) rfl inv hp hy hh hn hT
+  have hq := insertAB_spec (T := T) (s := s.arm (some k)) rfl inv hp hy hh hn hT hfresh
   have hsafe := safe_restart (s'.arm none) (arm_safe s')
   rcases hq with ⟨_, p⟩ | ⟨_, r⟩
   · have h := restart_spec (T := T) (s := s'.arm none) rfl (Or.inl p.1.chain) p.1.fromT
@@ -274,10 +306,10 @@ theorem reorg_pool_remove {T : Nat → Option Block} (s : St) (x : Block) (c : L
     executed in `b` and is no longer pending. -/
 theorem reorg_pool_insert {T : Nat → Option Block} (s : St) (b y : Block) (c : List Block) (hs : Safe s)
     (inv : Inv T s.disk s.mem c) (hp : b.pre = y.hash) (hy : c.head? = some y) (hh : y.height < b.height)
-    (hn : s.disk.blocks b.hash = none) (hT : T b.hash = some b) :
+    (hn : s.disk.blocks b.hash = none) (hT : T b.hash = some b) (hfresh : ∀ z ∈ c, ∀ t ∈ b.txs, t ∉ z.txs) :
     ∀ t ∈ b.txs, (insertB (insertA s b) b).disk.executed t = some b.hash ∧ t ∉ (insertB (insertA s b) b).mem.pending := by
   have hsafe : Safe (insertB (insertA s b) b) := safe_insertB b _ (safe_writes _ s hs)
-  exact (Out.of_alive (insertAB_spec hs.1 inv hp hy hh hn hT) hsafe.1).2.1
+  exact (Out.of_alive (insertAB_spec hs.1 inv hp hy hh hn hT hfresh) hsafe.1).2.1
 
 
 /-! ## non-vacuity: a concrete tree and concrete states satisfy the hypotheses -/
@@ -287,35 +319,50 @@ def exB1 : Block := { hash := 2, pre := 1, height := 1, totalQN := 1, pv := 5, t
 def exB2 : Block := { hash := 3, pre := 1, height := 2, totalQN := 2, pv := 4, txs := [8], valid := true }
 def exT : Nat → Option Block := fun h => if h = 1 then some exG else if h = 2 then some exB1 else if h = 3 then some exB2 else none
 
+theorem exT_anc {a b : Block} (h : IsAnc exT a b) : a = exG := by
+  induction h with
+  | parent hb hp =>
+    unfold exT at hb
+    split at hb
+    · simp at hb; subst hb; simp [exT, exG] at hp
+    · split at hb
+      · simp at hb; subst hb; simp [exT, exB1] at hp; exact hp.symm
+      · split at hb
+        · simp at hb; subst hb; simp [exT, exB2] at hp; exact hp.symm
+        · cases hb
+  | step _ _ _ ih => exact ih
+
 theorem exT_valid : ValidTree exT := by
   constructor
-  intro b q hb hq
-  unfold exT at hb
-  split at hb
-  · simp at hb; subst hb; simp [exT, exG] at hq
-  · split at hb
-    · simp at hb; subst hb
-      simp [exT, exB1] at hq; subst hq; simp [exG, exB1]
+  · intro b q hb hq
+    unfold exT at hb
+    split at hb
+    · simp at hb; subst hb; simp [exT, exG] at hq
     · split at hb
       · simp at hb; subst hb
-        simp [exT, exB2] at hq; subst hq; simp [exG, exB2]
-      · cases hb
+        simp [exT, exB1] at hq; subst hq; simp [exG, exB1]
+      · split at hb
+        · simp at hb; subst hb
+          simp [exT, exB2] at hq; subst hq; simp [exG, exB2]
+        · cases hb
+  · intro a b h t _
+    rw [exT_anc h]; simp [exG]
 
 /-- the genesis store is a state to which `inv_add`, `inv_crash`, `inv_restart` apply -/
 example : Inv exT (genesisState exG).disk (genesisState exG).mem [exG] ∧ Safe (genesisState exG) :=
-  ⟨inv_genesis exT exG rfl rfl, rfl, rfl⟩
+  ⟨inv_genesis exT exG rfl rfl rfl, rfl, rfl⟩
 
 /-- … and so is the store after delivering an extension and then a heavier sibling (a reorg) -/
 example : ∃ c, Inv exT ([exB1, exB2].foldl (fun s b => (addBlock 4 s b).1) (genesisState exG)).disk
     ([exB1, exB2].foldl (fun s b => (addBlock 4 s b).1) (genesisState exG)).mem c :=
-  inv_add_all exT_valid 4 [exB1, exB2] (genesisState exG) [exG] ⟨rfl, rfl⟩ (inv_genesis exT exG rfl rfl)
+  inv_add_all exT_valid 4 [exB1, exB2] (genesisState exG) [exG] ⟨rfl, rfl⟩ (inv_genesis exT exG rfl rfl rfl)
     (by intro b hb; simp at hb; rcases hb with rfl | rfl <;> rfl)
 
 /-- a two-block chain, as `head_after_crash_remove` and `reorg_pool_remove` need it -/
 example : Inv exT (insertB (insertA (genesisState exG) exB1) exB1).disk (insertB (insertA (genesisState exG) exB1) exB1).mem
     [exB1, exG] :=
-  (Out.of_alive (insertAB_spec (T := exT) (s := genesisState exG) (y := exG) rfl (inv_genesis exT exG rfl rfl)
-    rfl rfl (by decide) rfl rfl) rfl).1
+  (Out.of_alive (insertAB_spec (T := exT) (s := genesisState exG) (y := exG) rfl (inv_genesis exT exG rfl rfl rfl)
+    rfl rfl (by decide) rfl rfl (by intro z hz t _; simp at hz; subst hz; simp [exG])) rfl).1
 
 /-- the guard is neither always true nor always false -/
 example : Guard (genesisState exG) exB1 := Or.inl rfl
@@ -329,7 +376,7 @@ example : ¬ Guard (genesisState exG) { exB1 with pre := 99 } := by
 /-- `head_weight_monotone` applies to the genesis store and a block of the example tree -/
 example : ∃ c', Inv exT (addBlock 2 (genesisState exG) exB1).1.disk (addBlock 2 (genesisState exG) exB1).1.mem c' ∧
     WeightGE [exG] c' :=
-  head_weight_monotone exT 0 (genesisState exG) exB1 [exG] exT_valid ⟨rfl, rfl⟩ (inv_genesis exT exG rfl rfl) rfl
+  head_weight_monotone exT 0 (genesisState exG) exB1 [exG] exT_valid ⟨rfl, rfl⟩ (inv_genesis exT exG rfl rfl rfl) rfl
 
 /-! The weight order discriminates on the tie-break at the fork point (the class of a wrong local block
     being consulted): local chain `A – L1(pv 900) – L2(pv 100)`, fork tip `C` on `A` with the same cumulative
